@@ -5,6 +5,7 @@ import Qentem.Proofs.BigIntShl
 import Qentem.Proofs.BigIntScan
 import Qentem.Proofs.BigIntWide
 import Qentem.Proofs.BigIntWideOps
+import Qentem.Proofs.BigIntDivHand
 /-! C19 — BigInt holds the exact mathematical integer after every operation that fits.
 
 `Inv W s` (Proofs/BigIntBasic) is the representation invariant: n ≥ 1 words below 2^W, the words above
@@ -47,7 +48,8 @@ def Typed (W : Nat) : Op → Prop
   | .narrow K => TypeOK W K
   | _ => True
 
-/-- **C19, full strength** (statement): every operation of every configuration is exact. -/
+/-- **C19, full strength** (statement; proved below as `C19`): every operation of every configuration
+is exact. -/
 def C19_full : Prop := ∀ c : Cfg, GoodCfg c → ∀ op : Op, Typed c.W op → StepExact c op
 
 theorem pow_comm' (W n : Nat) : 2 ^ (n * W) = 2 ^ (W * n) := by rw [Nat.mul_comm]
@@ -251,16 +253,15 @@ theorem sequence_exact_native (W n : Nat) (hW : 0 < W) (hn : 0 < n) (ops : List 
     (inv_zero hW hn) (by rw [hlen, val_zero]; exact hspec)
   simpa [hlen] using this
 
-/-- The same with the half-word helpers (64-bit words in the C++; any half width h ≥ 1 here), relative to
-the exactness of the half-word divide. -/
-theorem sequence_exact_hand (h n : Nat) (hh : 0 < h) (hn : 0 < n) (hdiv : DivOK ⟨2 * h, true⟩)
+/-- The same with the half-word helpers (64-bit words in the C++; any half width h ≥ 1 here). -/
+theorem sequence_exact_hand (h n : Nat) (hh : 0 < h) (hn : 0 < n)
     (ops : List Op) (a' : Nat) (rs : List Ret)
     (hcov : ∀ op ∈ ops, Typed (2 * h) op) (hspec : specRun (2 * h) n 0 ops = some (a', rs)) :
     ∃ s', run ⟨2 * h, true⟩ (zero n) ops = .ok (s', rs) ∧ Inv (2 * h) s' ∧ s'.words.length = n ∧
       s'.val (2 * h) = a' := by
   have hlen : (zero n).words.length = n := by simp [zero]
   have := run_exact ⟨2 * h, true⟩ ops (zero n) a' rs
-    (fun op hop => step_exact ⟨2 * h, true⟩ (mulOK_hand h) hdiv op (hcov op hop))
+    (fun op hop => step_exact ⟨2 * h, true⟩ (mulOK_hand h) (divOK_hand h hh) op (hcov op hop))
     (inv_zero (by show 0 < 2 * h; omega) hn) (by rw [hlen, val_zero]; exact hspec)
   simpa [hlen] using this
 
@@ -268,15 +269,19 @@ theorem sequence_exact_hand (h n : Nat) (hh : 0 < h) (hn : 0 < n) (hdiv : DivOK 
 theorem mul_helper_exact (h a b : Nat) (ha : a < 2 ^ (2 * h)) (hb : b < 2 ^ (2 * h)) :
     (mulHand h a b).1 * 2 ^ (2 * h) + (mulHand h a b).2 = a * b := (mulHand_exact h a b ha hb).1
 
-/-- **Open**: the half-word divide is exact for every half width under its precondition. -/
-def div_helper_exact : Prop := ∀ h : Nat, 0 < h → DivOK ⟨2 * h, true⟩
+/-- The half-word divide is exact for every half width `h ≥ 1` under its precondition `hi < d`
+(`q·d + r = hi·2^W + lo`, `r < d`), with the `initial_shift` that `BigInt::Divide` computes. -/
+theorem div_helper_exact (h : Nat) (hh : 0 < h) : DivOK ⟨2 * h, true⟩ := divOK_hand h hh
 
-/-- C19 for every configuration with the native double-width helpers (8/16/32-bit words): proved in full. -/
+/-- C19 for every configuration with the native double-width helpers (8/16/32-bit words). -/
 theorem C19_native (W : Nat) (op : Op) (ht : Typed W op) : StepExact ⟨W, false⟩ op :=
   step_exact ⟨W, false⟩ (mulOK_native W) (divOK_native W) op ht
 
-/-- The full statement follows from the exactness of the half-word divide (the only open obligation). -/
-theorem C19_full_of_div_helper (hdiv : div_helper_exact) : C19_full := by
+/-- **C19** — every operation of every configuration (any word width, any word count, both helper
+variants): whenever the exact result fits, the checked model does not fault, re-establishes the
+invariant, holds exactly the mathematical result and returns the exact remainder / bit index /
+predicate. -/
+theorem C19 : C19_full := by
   intro c hg op ht
   rcases c with ⟨W, hand⟩
   cases hand with
@@ -285,11 +290,38 @@ theorem C19_full_of_div_helper (hdiv : div_helper_exact) : C19_full := by
     have hev : W % 2 = 0 := hg.2 rfl
     have hW : 0 < W := hg.1
     obtain ⟨h, rfl⟩ : ∃ h, W = 2 * h := ⟨W / 2, by omega⟩
-    exact step_exact ⟨2 * h, true⟩ (mulOK_hand h) (hdiv h (by omega)) op ht
+    exact step_exact ⟨2 * h, true⟩ (mulOK_hand h) (div_helper_exact h (by omega)) op ht
+
+/-- C19 for the configuration the C++ selects for `W`-bit words (half-word helpers exactly when
+`W = 64`), lifted to every operation sequence on a fresh object of `n ≥ 1` words. -/
+theorem C19_sequences (W n : Nat) (hW : 0 < W) (hn : 0 < n) (ops : List Op) (a' : Nat)
+    (rs : List Ret) (ht : ∀ op ∈ ops, Typed W op) (hspec : specRun W n 0 ops = some (a', rs)) :
+    ∃ s', run (Cfg.std W) (zero n) ops = .ok (s', rs) ∧ Inv W s' ∧ s'.words.length = n ∧ s'.val W = a' := by
+  have hlen : (zero n).words.length = n := by simp [zero]
+  have hg : GoodCfg (Cfg.std W) := ⟨hW, fun hh => by
+    have h64 : W = 64 := by simpa [Cfg.std] using hh
+    show W % 2 = 0
+    rw [h64]⟩
+  have := run_exact (Cfg.std W) ops (zero n) a' rs (fun op hop => C19 (Cfg.std W) hg op (ht op hop))
+    (inv_zero hW hn) (by rw [hlen, val_zero]; exact hspec)
+  simpa [hlen, Cfg.std] using this
 
 /-! Non-vacuity: a concrete run where everything fits (8-bit words, 4 words):
 200 + 255 = 455; ·200 = 91000; /9 = 10111 rem 1; 10111 > 9; log2 10111 = 13. -/
 example : specRun 8 4 0 [.assign 8 200, .bop .add 8 255, .mul 200, .div 9, .cmp .gt 9, .flb]
     = some (10111, [.none, .none, .none, .nat 1, .bool true, .nat 13]) := by decide
+
+/-! TEST (labelled as such, not a theorem about all inputs): the half-word divide at h = 2 (4-bit words)
+evaluated by the kernel on its whole precondition domain — d in 1..15, hi < d, lo in 0..15. -/
+def divTestDomain : List (Nat × Nat × Nat) :=
+  (List.range 16).flatMap fun d => (List.range d).flatMap fun hi => (List.range 16).map fun lo => (hi, lo, d)
+
+def divTestOK : Nat × Nat × Nat → Bool
+  | (hi, lo, d) =>
+    match divHand 2 hi lo d (3 - d.log2) with
+    | .ok (r, q) => q * d + r == hi * 16 + lo && decide (r < d)
+    | .error _ => false
+
+example : divTestDomain.all divTestOK = true := by decide +kernel
 
 end Qentem.Props.C19
